@@ -8,10 +8,18 @@
    job finishing) in which every worker publication of dataset d carries content(d).  One iteration
    of the real recv_loop is such a sequence (C07_iterations_are_action_sequences), so every theorem
    covers every trace of loop iterations, with every thread timing.
+   A pool job (send_payload / store_payload), and with it the one multipart message a send job emits, is
+   ATOMIC in that model.  What this rests on is stated and proved separately on a frame-level model of the
+   PUSH socket (Net/Multipart.v, theorems (6) below): a message is assembled per socket, so as long as the
+   frames of two messages do not interleave on one socket -- comms.send_data / callback open a socket per
+   call -- every interleaving of the frame sends of the two pool threads puts exactly the whole messages on
+   the wire; on a socket shared by two concurrent sends it does not (C07_shared_socket_interleaving_refuted).
+   The interleavings themselves are exercised on the implementation (harness/c07.py steps two pool jobs
+   frame by frame) and the log of all frame sends of every trace is checked against (6) inside Coq.
    `content d` = (bytes, deser_fun) that the producing worker serialised for dataset d. *)
 From Coq Require Import List NArith ZArith String Bool.
-From EKW Require Import Net.DataServer Net.DataServerProofs.
-From EKW Require Net.DataServerCheck.   (* not used here: keeps the correspondence checker's .vo in step with the model *)
+From EKW Require Import Net.DataServer Net.DataServerProofs Net.Multipart Net.MultipartProofs.
+From EKW Require Net.DataServerCheck Net.MultipartCheck.   (* not used here: keeps the correspondence checkers' .vo in step with the model *)
 Import ListNotations.
 Open Scope list_scope.
 
@@ -112,6 +120,36 @@ Proof.
         (conj listener_confirms_every_copy (conj store_job_stores store_job_redundant)))))).
 Qed.
 
+(* (6) the atomicity of a send, frame by frame.  `log` is any sequence of socket.send(frame, SNDMORE?) calls, i.e. any
+   interleaving of what the loop and the two pool threads of all hosts send.  If the sends made on socket s are, in
+   this order, the frames of the messages msgs, then s puts exactly these messages on the wire: each whole, once, in
+   this order, whatever happens on the other sockets meanwhile ... *)
+Theorem C07_uninterleaved_sends_are_atomic : forall s log msgs,
+  filter (on s) log = List.concat (map (frames s) msgs) ->
+  filter (from s) (snd (wrun w0 log)) = map (whole s) msgs /\ fst (wrun w0 log) s = [].
+Proof. exact uninterleaved_socket_sends_whole_messages. Qed.
+
+(* ... so if that holds of every socket, every message on the wire is made of the frames of one sender ... *)
+Theorem C07_uninterleaved_wire_ok : forall log,
+  (forall s, exists msgs, filter (on s) log = List.concat (map (frames s) msgs)) -> wire_ok log = true.
+Proof. exact uninterleaved_wire_ok. Qed.
+
+(* ... in particular when every message is sent on a socket of its own, as comms.send_data and callback do *)
+Theorem C07_private_sockets_wire_ok : forall log,
+  (forall s, filter (on s) log = [] \/ exists m, filter (on s) log = frames s m) -> wire_ok log = true.
+Proof. exact private_sockets_wire_ok. Qed.
+
+(* The side condition is needed: two send jobs that use ONE socket at the same time ([Syn; header; value] each, the
+   second starting after the first one's Syn) put [Syn1; Syn2; header1; header2; value1] and [value2] on the wire --
+   neither payload arrives.  (Refutation of "a send is atomic" without the side condition; the harness reports such a
+   message on the wire of the implementation as payload-frames-interleaved.) *)
+Theorem C07_shared_socket_interleaving_refuted :
+  filter (fun f => N.eqb (fs_tag f) 1) garbling_log = frames 7 (1%N, 2%nat) /\
+  filter (fun f => N.eqb (fs_tag f) 2) garbling_log = frames 7 (2%N, 2%nat) /\
+  snd (wrun w0 garbling_log) = [(7%N, [1; 2; 1; 2; 1]%N); (7%N, [2]%N)] /\
+  wire_ok garbling_log = false.
+Proof. exact shared_socket_garbles. Qed.
+
 (* ------------------------------------------------------------------ non-vacuity *)
 (* host 1 holds dataset 0; the controller commands two transfers 1 -> 2 of it (idx 7 and, redundantly, 8);
    the first payload is duplicated and one copy lost; host 2 stores and announces it; the second payload is
@@ -192,6 +230,34 @@ Example C07_progress_steps_nonvacuous :
        with Ok s => s | Err _ => init end) = [(0%N, FAck 0); (2%N, FData 7 1 pay7)].
 Proof. vm_compute. reflexivity. Qed.
 
+(* the same for the FIRST transfer a controller commands (Bridge.transmit_idx_counter starts at 0), whose payload is
+   lost twice: it is sent a third time; and the payload of the next one (idx 1), lost after idx 0 was long
+   confirmed, is re-sent too *)
+Definition c0 : cmd := mkCmd 1 2 2 0 0.
+Definition c1 : cmd := mkCmd 1 2 2 1 1.
+Definition pay0 : payload := mkPay 1 0 0 0 [0; 255; 16]%N.
+Definition pay1 : payload := mkPay 1 1 1 1 [170]%N.
+Example C07_progress_steps_idx0_nonvacuous :
+  net (match run_ops init [OA (AHost 1 (HPublish 0 [0; 255; 16]%N 0)); OA (ACommand c0 0); OA (ADeliver 1 (FCmd 0 0 c0));
+                           OIter 1 []; OA (AHost 1 (HRunJob 0)); OA (ADrop 2 (FData 0 1 pay0)); OIter 1 [];
+                           OA (ATick 5000000000); OIter 1 []; OA (AHost 1 (HRunJob 1)); OA (ADrop 2 (FData 0 1 pay0));
+                           OA (ATick 5000000000); OIter 1 []; OA (AHost 1 (HRunJob 2))]
+       with Ok s => s | Err _ => init end) = [(0%N, FAck 0); (2%N, FData 0 1 pay0)] /\
+  net (match run_ops init [OA (AHost 1 (HPublish 0 [0; 255; 16]%N 0)); OA (AHost 1 (HPublish 1 [170]%N 1));
+                           OA (ACommand c0 0); OA (ADeliver 1 (FCmd 0 0 c0)); OIter 1 []; OA (AHost 1 (HRunJob 0));
+                           OA (ADeliver 2 (FData 0 1 pay0)); OIter 2 []; OA (AHost 2 (HRunJob 0)); OA (ADeliver 1 (FAck 0)); OIter 1 [];
+                           OA (ATick 5000000000); OIter 1 [];
+                           OA (ACommand c1 1); OA (ADeliver 1 (FCmd 1 0 c1)); OIter 1 []; OA (AHost 1 (HRunJob 1));
+                           OA (ADrop 2 (FData 1 1 pay1)); OA (ATick 5000000000); OIter 1 []; OA (AHost 1 (HRunJob 2))]
+       with Ok s => s | Err _ => init end) = [(0%N, FAck 0); (0%N, FAck 1); (2%N, FData 1 1 pay1)].
+Proof. vm_compute. split; reflexivity. Qed.
+
+(* two messages of three frames from two senders, interleaved frame by frame, each on its own socket: both arrive whole *)
+Example C07_private_sockets_wire_ok_nonvacuous :
+  (forall s, filter (on s) private_log = [] \/ exists m, filter (on s) private_log = frames s m) /\
+  snd (wrun w0 private_log) = [whole 7 (1%N, 2%nat); whole 8 (2%N, 2%nat)].
+Proof. exact private_log_whole. Qed.
+
 Print Assumptions C07_stored_bytes_equal.
 Print Assumptions C07_inflight_bytes_equal.
 Print Assumptions C07_fetch_bytes_equal.
@@ -203,3 +269,7 @@ Print Assumptions C07_no_resurrection.
 Print Assumptions C07_late_payload_discarded.
 Print Assumptions C07_iterations_are_action_sequences.
 Print Assumptions C07_progress_steps_partial.
+Print Assumptions C07_uninterleaved_sends_are_atomic.
+Print Assumptions C07_uninterleaved_wire_ok.
+Print Assumptions C07_private_sockets_wire_ok.
+Print Assumptions C07_shared_socket_interleaving_refuted.
